@@ -68,11 +68,15 @@ def rate_syms(i, j, kind):
         return [f"VM_{i}{_j0(j)}", f"KM_{i}"]
     if kind == "shared":
         return ["KS"]
+    if kind == "sum":  # a rate that is a sum of positive terms (two parallel first-order processes)
+        return [f"K_{i}{_j0(j)}", f"L_{i}{_j0(j)}", f"V_{i}"]
     raise ValueError(kind)
 
 
 def rate_val(i, j, kind, env):
     s = rate_syms(i, j, kind)
+    if kind == "sum":
+        return env[s[0]] + env[s[1]] / env[s[2]]
     if kind in ("sym", "shared"):
         return env[s[0]]
     if kind == "pk":
@@ -87,6 +91,8 @@ def rate_expr(i, j, kind):
 
     S = Expr.symbol
     s = rate_syms(i, j, kind)
+    if kind == "sum":
+        return S(s[0]) + S(s[1]) / S(s[2])
     if kind in ("sym", "shared"):
         return S(s[0])
     if kind == "pk":
@@ -98,6 +104,8 @@ def rate_expr(i, j, kind):
 
 def rate_text(i, j, kind):
     s = rate_syms(i, j, kind)
+    if kind == "sum":
+        return f"{s[0]}+{s[1]}/{s[2]}"
     if kind in ("sym", "shared"):
         return s[0]
     if kind == "pk":
